@@ -750,3 +750,46 @@ pub fn alignment_labels() -> Vec<Vec<u8>> {
     }
     out
 }
+
+
+/// Long-name family for compression: names of 240..=255 wire bytes that share suffixes, and deep
+/// chains in which every owner extends the previous one by a label (so that decoding the last one
+/// follows many pointers).
+pub fn long_name_packets() -> Vec<RefPacket> {
+    let mut out = Vec::new();
+    for last in 40..=61usize {
+        // 63 + 63 + 63 + last labels => wire length 3*64 + last + 1 + 1
+        let base = RefName(vec![label_n(63, b'p'), label_n(63, b'q'), label_n(63, b'r'), label_n(last, b's')]);
+        let suffix = RefName(base.0[1..].to_vec());
+        let mut sibling = vec![label_n(62, b'z')];
+        sibling.extend(suffix.0.iter().cloned());
+        let sibling = RefName(sibling);
+        for kind in [2u16, 15, 6, 33] {
+            let mut p = RefPacket { id: 0x1009, flags: F_QR, ..Default::default() };
+            p.questions.push(RefQ { name: base.clone(), qtype: 255, qclass: 1, unicast: false });
+            p.answers.push(RefRR { name: base.clone(), class: 1, cache_flush: false, ttl: 1, rdata: rdata_with_names(kind, &[sibling.clone(), suffix.clone()]) });
+            p.answers.push(RefRR { name: base.clone(), class: 1, cache_flush: false, ttl: 2, rdata: RefRData::Typed { code: 1, vals: vec![Val::U32(1)] } });
+            p.additional.push(RefRR { name: sibling.clone(), class: 1, cache_flush: false, ttl: 3, rdata: rdata_with_names(12, &[base.clone()]) });
+            if sibling.is_wire_valid() && base.is_wire_valid() {
+                out.push(p);
+            }
+        }
+    }
+    for depth in [20usize, 40, 43, 60, 65, 80, 100, 126] {
+        for width in [1usize, 3] {
+            if depth * (width + 1) + 1 > 255 {
+                continue;
+            }
+            let mut p = RefPacket { id: 0x1010, flags: F_QR, ..Default::default() };
+            let mut name: Vec<B> = Vec::new();
+            for i in 0..depth {
+                name.insert(0, B(vec![b'a' + (i % 26) as u8; width]));
+                let n = RefName(name.clone());
+                let r = RefRR { name: n.clone(), class: 1, cache_flush: false, ttl: i as u32, rdata: if i % 2 == 0 { RefRData::Typed { code: 1, vals: vec![Val::U32(i as u32)] } } else { rdata_with_names(5, &[n.clone()]) } };
+                p.answers.push(r);
+            }
+            out.push(p);
+        }
+    }
+    out
+}
